@@ -29,6 +29,7 @@ func shapes(thorough bool) []*prog.Shape {
 	add := func(s *prog.Shape) {
 		if !seen[s.Sig()] {
 			seen[s.Sig()] = true
+			schemeOf[s] = len(out) // column naming style rotates over the programs
 			out = append(out, s)
 		}
 	}
@@ -105,7 +106,31 @@ func assign(fs []*prog.Field, k *int) {
 
 // source renders the struct with lower-case column names via tags; leaves
 // are l<n>, groups g<n> (unique), Go names are the title-cased column names.
+// nameFor renders column names in one of several styles (the regenerated
+// struct derives Go identifiers and nested type names from them).
+func nameFor(scheme int, leaf bool, n int) string {
+	switch scheme % 3 {
+	case 1:
+		if leaf {
+			return fmt.Sprintf("my_leaf_%d", n)
+		}
+		return fmt.Sprintf("my_group_%d", n)
+	case 2:
+		if leaf {
+			return fmt.Sprintf("leafValue%d", n)
+		}
+		return fmt.Sprintf("groupNode%d", n)
+	}
+	if leaf {
+		return fmt.Sprintf("l%d", n)
+	}
+	return fmt.Sprintf("g%d", n)
+}
+
+var schemeOf = map[*prog.Shape]int{}
+
 func source(pkg string, s *prog.Shape) string {
+	scheme := schemeOf[s]
 	var decls []string
 	n := 0
 	var rec func(name string, fs []*prog.Field)
@@ -121,10 +146,10 @@ func source(pkg string, s *prog.Shape) string {
 			n++
 			prefix := []string{"", "*", "[]"}[f.Rep]
 			if f.Leaf {
-				fmt.Fprintf(&sb, "\tL%d %s%s `parquet:\"l%d\"`\n", n, prefix, f.Type, n)
+				fmt.Fprintf(&sb, "\tL%d %s%s `parquet:\"%s\"`\n", n, prefix, f.Type, nameFor(scheme, true, n))
 			} else {
 				tn := fmt.Sprintf("G%d", n)
-				fmt.Fprintf(&sb, "\t%s %s%s `parquet:\"g%d\"`\n", tn, prefix, tn, n)
+				fmt.Fprintf(&sb, "\t%s %s%s `parquet:\"%s\"`\n", tn, prefix, tn, nameFor(scheme, false, n))
 				later = append(later, pending{tn, f.Children})
 			}
 		}
@@ -139,8 +164,9 @@ func source(pkg string, s *prog.Shape) string {
 }
 
 type rcase struct {
-	Sig   string `json:"shape"`
-	Class string `json:"class"`
+	Sig    string `json:"shape"`
+	Class  string `json:"class"`
+	Scheme int    `json:"naming_scheme"`
 }
 
 func verdicts(r prog.Result) [][2]string {
@@ -256,14 +282,14 @@ func run(c *fw.Ctx) {
 			// are then not the files the property talks about
 			for _, v := range verdicts(r1[i]) {
 				if strings.HasPrefix(v[0], "base-") {
-					c.Violate("shape="+sig+" class="+v[0], fmt.Sprintf("struct shape %s: the source struct's own writer fails: %s: %s", sig, v[0], v[1]), "regen", rcase{sig, v[0]})
+					c.Violate("shape="+sig+" class="+v[0], fmt.Sprintf("struct shape %s: the source struct's own writer fails: %s: %s", sig, v[0], v[1]), "regen", rcase{sig, v[0], schemeOf[ss[lo+i]]})
 				}
 			}
 			if c.WantSample() && i%23 == 2 {
 				c.Sample(map[string]interface{}{"shape": sig, "files_written": r1[i].Evals, "files_read_back": r2[i].Evals})
 			}
 			for _, v := range verdicts(*r2[i]) {
-				c.Violate("shape="+sig+" class="+v[0], fmt.Sprintf("struct shape %s: %s: %s", sig, v[0], v[1]), "regen", rcase{sig, v[0]})
+				c.Violate("shape="+sig+" class="+v[0], fmt.Sprintf("struct shape %s: %s: %s", sig, v[0], v[1]), "regen", rcase{sig, v[0], schemeOf[ss[lo+i]]})
 			}
 		}
 	}
@@ -278,6 +304,7 @@ func replay(c *fw.Ctx, kind string, data json.RawMessage) string {
 	if err != nil {
 		return "bad shape: " + err.Error()
 	}
+	schemeOf[s] = rc.Scheme
 	tier := fmt.Sprintf("replay%d", os.Getpid())
 	defer os.RemoveAll(filepath.Join(os.Getenv("VERIF_MC"), "work/c15", tier))
 	r1, r2, err := runJob(tier, 0, []*prog.Shape{s})
